@@ -15,7 +15,7 @@ inline Prog decode(hz::Reader &r) {
     return p;
 }
 static const char *opn[] = {"add coroutine listener", "connect callback", "emit(by value)", "emit(rvalue)", "emit(lvalue ref)", "copy handle", "drop handle",
-                            "listener subscribes on another thread", "emit(by value)", "add coroutine listener",
+                            "listener subscribes on another thread", "emit(const lvalue | converting argument: the collector's generic overload)", "add coroutine listener",
                             "hook-up episode (a coroutine registers through signal::hook_up and receives from the collector it was handed)"};
 inline std::string describe(const Prog &p) {
     hz::Desc d; d << (p.is_void ? "signal<void>" : "signal<int>") << (p.coro_mode ? ", collector called from a coroutine (emission co_awaited)" : ", collector called from ordinary code") << ", " << (unsigned)p.ops.size() << " ops:";
@@ -166,7 +166,9 @@ cocls::async<void> emit_coro(Run<VOID> &R, int how, int v) {
     else {
         if (how == 0) { co_await R.col()(int(v)); }
         else if (how == 1) { int x = v; co_await R.col()(std::move(x)); }
-        else { R.lvalue_store = v; co_await R.col()(R.lvalue_store); }
+        else if (how == 2) { R.lvalue_store = v; co_await R.col()(R.lvalue_store); }
+        else if (how == 3) { const int cv = v; co_await R.col()(cv); }
+        else { co_await R.col()((long)v); }
     }
 }
 
@@ -185,13 +187,13 @@ void run_t(const Prog &p) {
                 case 2: case 3: case 4: case 8: {
                     if (R.cols.empty()) break;
                     int v = VOID ? -1 : 100 + R.emissions;
-                    int how = o.code == 3 ? 1 : o.code == 4 ? 2 : 0;
+                    int how = o.code == 3 ? 1 : o.code == 4 ? 2 : o.code == 8 ? 3 + (o.a & 1) : 0;
                     unsigned waiting = 0; for (auto &r : R.L) if (r.active) waiting++;
                     if (waiting > max_waiting) max_waiting = waiting;
                     R.model_emit(v);
                     if (p.coro_mode) { cocls::future<void> f = emit_coro<VOID>(R, how, v).start(); HZ_CHECK(f.ready(), "emitting coroutine did not finish"); }
                     else if constexpr (VOID) R.col()();
-                    else { if (how == 0) R.col()(int(v)); else if (how == 1) { int x = v; R.col()(std::move(x)); } else { R.lvalue_store = v; R.col()(R.lvalue_store); } }
+                    else { if (how == 0) R.col()(int(v)); else if (how == 1) { int x = v; R.col()(std::move(x)); } else if (how == 2) { R.lvalue_store = v; R.col()(R.lvalue_store); } else if (how == 3) { const int cv = v; R.col()(cv); } else R.col()((long)v); }
                     R.join_pending();
                     R.settle_tolerant(v);
                     R.emissions++;
